@@ -2,8 +2,8 @@ import CelmaVerif.Base.Res
 /-
   Integer-to-string conversions of Celma (property C13) — executable model, core Lean only.
 
-  The *data* (decision trees of `intN_str_length`, the statements of every `case` of the eight
-  `convert()` switches, the expressions used by the 32 caller functions, the zero/negative dispatch of
+  The *data* (decision trees of `intN_str_length`, per digit count the statements the eight
+  `convert()` functions execute — written as the `case`s of a switch —, the expressions used by the 32 caller functions, the zero/negative dispatch of
   the `detail/*.hpp` headers and the overload table of `int2string.hpp`/`grouped_int2string.hpp`) is
   not written here: `translate/int2str.py` regenerates it from the C++ sources into
   `Generated/Int2Str.lean` on every run.  This file defines
@@ -56,9 +56,15 @@ inductive Op where
   /-- `checkAddGroupChar( buffer, num_digits, group_char)`:
       `if (++num_digits == thr) { *buffer-- = group_char; num_digits = reset; }` -/
   | check (thr reset : Nat)
+  /-- `*buffer[--] = group_char;` — a group character stored on a path on which the translator has
+      evaluated the (value-independent) digit counter itself -/
+  | group (dec : Bool)
   deriving DecidableEq, Repr
 
-/-- one `case label:` (`none` = `default:`) with its statements; `fall` = no `break` at its end -/
+/-- one `case label:` (`none` = `default:`) with its statements; `fall` = no `break` at its end.
+    The translator executes the control flow of `convert()` for every digit count and writes the resulting
+    statement traces in this form (a switch in the source comes out as it is written; a loop or an if chain
+    comes out as the switch it is equivalent to on the digit counts the length function can return). -/
 structure Row where
   label : Option Nat
   ops : List Op
@@ -117,6 +123,11 @@ def Op.step (g : Byte) : Op → CS → Res CS
       | .throw e => .throw e
       | .oob w => .oob w
     else .ok { s with nd := nd }
+  | .group dec, s =>
+    match store s.mem s.pos g "convert: *buffer = group_char" with
+    | .ok mem => .ok { s with mem := mem, pos := if dec then s.pos - 1 else s.pos }
+    | .throw e => .throw e
+    | .oob w => .oob w
 
 def exec (g : Byte) : List Op → CS → Res CS
   | [], s => .ok s
@@ -189,7 +200,7 @@ structure FileSpec where
   tree : Tree             -- of the `intM_str_length` the file calls
   lenCast : Nat           -- `static_cast< uintM_t>( orig_value)` in it
   convBits : Nat          -- type of `convert()`'s `value` parameter
-  ndInit : Nat            -- `uint8_t num_digits = 0;`
+  ndInit : Nat            -- `uint8_t num_digits = 0;` (0 since the translator evaluates the digit counter itself)
   rows : List Row
   ustr : Caller
   nstr : Caller
@@ -393,6 +404,7 @@ def Op.std : Op → Bool
   | .div d => d == 10
   | .inc => true
   | .check _ _ => true
+  | .group _ => true
 
 /-- symbolic execution; `j` = number of `value /= 10` so far, `nd` = `num_digits`, `d` = number of
     `buffer--` so far -/
@@ -405,6 +417,7 @@ def shape : List Op → (j nd d : Nat) → List SymW
   | .check thr reset :: r, j, nd, d =>
     if (nd + 1) % 256 = thr then (d, Item.group) :: shape r j (reset % 256) (d + 1)
     else shape r j ((nd + 1) % 256) d
+  | .group dec :: r, j, nd, d => (d, Item.group) :: shape r j nd (if dec then d + 1 else d)
 
 /-- insert `g` after every third element (the list is least-significant digit first) -/
 def groupRev (g : α) : List α → List α
